@@ -52,3 +52,11 @@ Definition nfa_dfa_equivb {B} `{Eqb B} (N : nfa nat) (D : dfa B) : bool :=
   match nfa_det N with Some DN => dfa_equivb DN D | None => false end.
 Definition nfa_equivb (N1 N2 : nfa nat) : bool :=
   match nfa_det N1, nfa_det N2 with Some D1, Some D2 => dfa_equivb D1 D2 | _, _ => false end.
+
+(* the same oracles with an explicit iteration budget for the subset construction (used when the NFA is large, e.g.
+   the NFA of a regular expression): a result Some _ is correct for every budget (nfa_to_dfa_correct); None = undecided *)
+Definition nfa_det_f (fuel : nat) (N : nfa nat) : option (dfa (list nat)) := nfa_to_dfa_fuel canon_nat N fuel.
+Definition nfa_dfa_equivb_f {B} `{Eqb B} (fuel : nat) (N : nfa nat) (D : dfa B) : option bool :=
+  match nfa_det_f fuel N with Some DN => Some (dfa_equivb DN D) | None => None end.
+Definition nfa_equivb_f (fuel : nat) (N1 N2 : nfa nat) : option bool :=
+  match nfa_det_f fuel N1, nfa_det_f fuel N2 with Some D1, Some D2 => Some (dfa_equivb D1 D2) | _, _ => None end.
